@@ -1791,7 +1791,9 @@ func runC07(c *Ctx) {
 		`f=func(s){f(s)}; for i=2 {f("x")}`, "g=func(a,b){g(a+1,b)}; for i=2{g(i,i)}",
 		// image.add with a smaller / empty second image (seeded regression 5-1); rest of a string starting with an invalid byte (5-2)
 		`image.new("ca",4,4); image.new("cb",2,2); image.add("ca","cb")`, `image.new("cc",3,3); image.new("cz",0,0); image.add("cc","cz")`,
-		`rest("\xffa")`, `for c = "\xc3a" { print(c) }`, `s = "éa"; rest(s[1:3])`}
+		`rest("\xffa")`, `for c = "\xc3a" { print(c) }`, `s = "éa"; rest(s[1:3])`,
+		// eval of an incomplete text (repaired by 9466c2d); a macro body calling eval (seeded regression 6-1)
+		`eval("()=> /* abc")`, `defun("df", [], ["()=> /* abc"])`, `m = macro(a){ eval("abs(-1)"); quote(unquote(a)) }; m(3)`}
 	for _, s := range corpus {
 		check(c, "corpus", s, std)
 		evalOneAgrees(c, s)
@@ -1964,6 +1966,11 @@ func runC07(c *Ctx) {
 	// 3h. first / rest / for-in over malformed UTF-8; 3i. image operations on images of different sizes
 	firstRestStrings(c)
 	imagePairs(c)
+
+	// 3j. run-time re-entry (eval, unjson, defun, load) with truncated and malformed texts; 3k. macro bodies calling
+	//     builtins / extensions (both in reentry.go)
+	reentryTexts(c)
+	macroBodyCalls(c)
 
 	// 4. builtin / extension sweep
 	sweep(c)
